@@ -2,9 +2,12 @@ import IsoMdl.Generated.PanicSites
 /-
 S-C15 — the justification table over the GENERATED inventory of panic-capable sites
 (`Generated/PanicSites.lean`: every unwrap/expect/from_slice/index/arithmetic/assert/unreachable in
-non-test library code, regenerated from /repo/src on every run).  `justify` is a TOTAL function on
-the generated type: a site that appears in the source without an entry here, or an entry whose site
-is no longer in the source, does not compile, and the C15 check reports it.  A site is identified by
+non-test library code, regenerated from /repo/src on every run).  `table` is keyed by the site's
+generated name (`PanicSite.key`); `C15_inventory_justified` proves that EVERY site of the regenerated
+inventory has an entry: a site that appears in the source without an entry here fails that theorem and
+the C15 check reports it.  An entry whose site is no longer in the source is simply unused - removing a
+panic-capable site cannot break the property, so it must not raise an alarm (it did, until a
+behaviour-preserving refactoring that dropped two `unwrap`s showed it; `unusedEntries` lists such entries).  A site is identified by
 its file, its kind and the SHAPE of its operand (for `x.a().b(c).unwrap()` the last call `.b(c)`; callee
 paths, method names, literals; local names blanked), so renaming locals, merging identical calls or moving code into a helper of the same
 file does not disturb the table; sites whose operand consists of locals only stay tied to their
@@ -34,24 +37,36 @@ inductive Justification where
   deriving Repr
 
 open Justification in
-def justify : PanicSite → Justification
-  | .definitions_device_engagement__unwrap_9cc689 => ownOutput "security.0 is a u64: serialising an integer into a ciborium Value cannot fail"
-  | .definitions_device_engagement__unwrap_e4f59e => ownOutput "security.1 is a Tag24<CoseKey> already holding its encoded bytes: serialisation emits tag 24 + bstr"
-  | .definitions_helpers_non_empty_vec__unwrap_38e54e => ownOutput "`try_into` of the element-wise (try-)map of a NonEmptyVec: the length stays >= 1 (in the fallible form the `?` before it returns on any element error)"
-  | .definitions_namespaces_org_iso_18013_5_1_tdate__unwrap_a91186 => constantOperand "replace_millisecond(0): 0 is always a valid millisecond"
-  | .definitions_session__unwrap_1d9b50 => guarded "`if public_key_opt.is_none().into() { return Err }` immediately before"
-  | .definitions_session__unwrap_91a0ee => constantOperand "HKDF-SHA-256 expand into a 32-byte buffer: 32 <= 255*32"
-  | .definitions_session__arithadd_073ffc => modelled "C15_counter_never_panics (callers refuse at u32::MAX before the increment)"
-  | .definitions_x509_x5chain__index_d237ce => ownOutput "X5Chain wraps a NonEmptyVec: index 0 exists"
-  | .presentation_device__unwrap_eb71d6 => ownOutput "decodes the bytes `cbor::to_vec(&response)` has just produced (C16 round trip of DeviceResponse)"
-  | .presentation_device__assert_eq_3c1ccc => ownOutput "re-encoding of the value decoded from the crate's own encoding (C16 round trip of DeviceResponse)"
-  | .presentation_device__unreachable_9a556d => guarded "`matches!(&self.state, State::Signing(..))` on the same state immediately before"
-  | .presentation_device__unreachable_b58ed3 => guarded "`if self.response_ready()` i.e. state is ReadyToRespond, then `mem::take` of the same state"
-  | .presentation_device__unwrap_6f3d02 => localApi "provisioning (`Document::from(Mdoc)`): `try_into` of the keyed collection of a NonEmptyVec of elements / of the mapped NonEmptyMap of namespaces, both non-empty"
-  | .presentation_reader__unwrap_df4803 => deadCode "`_validate_request` has no caller"
+def table : List (String × Justification) := [
+  ("definitions_device_engagement__unwrap_9cc689", ownOutput "security.0 is a u64: serialising an integer into a ciborium Value cannot fail"),
+  ("definitions_device_engagement__unwrap_e4f59e", ownOutput "security.1 is a Tag24<CoseKey> already holding its encoded bytes: serialisation emits tag 24 + bstr"),
+  ("definitions_helpers_non_empty_vec__unwrap_38e54e", ownOutput "`try_into` of the element-wise (try-)map of a NonEmptyVec: the length stays >= 1 (in the fallible form the `?` before it returns on any element error)"),
+  ("definitions_namespaces_org_iso_18013_5_1_tdate__unwrap_a91186", constantOperand "replace_millisecond(0): 0 is always a valid millisecond"),
+  ("definitions_session__unwrap_1d9b50", guarded "`if public_key_opt.is_none().into() { return Err }` immediately before"),
+  ("definitions_session__unwrap_91a0ee", constantOperand "HKDF-SHA-256 expand into a 32-byte buffer: 32 <= 255*32"),
+  ("definitions_session__arithadd_073ffc", modelled "C15_counter_never_panics (callers refuse at u32::MAX before the increment)"),
+  ("definitions_x509_x5chain__index_d237ce", ownOutput "X5Chain wraps a NonEmptyVec: index 0 exists"),
+  ("presentation_device__unwrap_eb71d6", ownOutput "decodes the bytes `cbor::to_vec(&response)` has just produced (C16 round trip of DeviceResponse)"),
+  ("presentation_device__assert_eq_3c1ccc", ownOutput "re-encoding of the value decoded from the crate's own encoding (C16 round trip of DeviceResponse)"),
+  ("presentation_device__unreachable_9a556d", guarded "`matches!(&self.state, State::Signing(..))` on the same state immediately before"),
+  ("presentation_device__unreachable_b58ed3", guarded "`if self.response_ready()` i.e. state is ReadyToRespond, then `mem::take` of the same state"),
+  ("presentation_device__unwrap_6f3d02", localApi "provisioning (`Document::from(Mdoc)`): `try_into` of the keyed collection of a NonEmptyVec of elements / of the mapped NonEmptyMap of namespaces, both non-empty"),
+  ("presentation_reader__unwrap_df4803", deadCode "`_validate_request` has no caller")]
+
+def Justification.isModelled : Justification → Bool
+  | .modelled _ => true
+  | _ => false
+
+def justifyKey (k : String) : Option Justification := (table.find? fun e => e.1 == k).map (·.2)
+
+/-- the justification of a site of the regenerated inventory, if the table has one -/
+def justify? (s : PanicSite) : Option Justification := justifyKey s.key
+
+/-- table entries whose site is no longer in the source (informational) -/
+def unusedEntries : List String := (table.map (·.1)).filter fun k => !(PanicSite.all.map PanicSite.key).contains k
 
 /-- sites whose safety rests on a theorem of Props/C15 rather than on a local argument -/
-def modelledSites : List PanicSite :=
-  [.definitions_session__arithadd_073ffc]
+def modelledKeys : List String :=
+  ["definitions_session__arithadd_073ffc"]
 
 end IsoMdl.Spec.C15
